@@ -86,8 +86,14 @@ def battery(ctx, res, r):
         res.add_metadata(upd, axis=axis)
         if keys:
             res.del_metadata(keys=[keys[-1]], axis=axis)
-        # first a renaming that fits the current id width (names rotated),
+        # first a partial renaming (one id, strict=False) that fits the
+        # current id width, then a full one that fits it (names rotated),
         # then one that needs a wider array
+        one = str(ids[r.randrange(len(ids))])
+        alt = one[:-1] + ('~' if not one.endswith('~') else '^')
+        if alt not in set(map(str, ids)):
+            res.update_ids({one: alt}, axis=axis, strict=False, inplace=True)
+            ids = list(res.ids(axis=axis))
         if len(ids) > 1:
             res.update_ids({i: ids[(k + 1) % len(ids)]
                             for k, i in enumerate(ids)}, axis=axis,
